@@ -415,7 +415,7 @@ namespace
 			{
 				extTypeInfo.Size = metaInfo.FixedSeq;
 				extTypeInfo.DataOffset = 1 + metaInfo.DataSize;
-				if (pos + extTypeInfo.DataOffset < inputData.size())
+				if (pos + extTypeInfo.DataOffset <= inputData.size())
 				{
 					extTypeInfo.ExtTypeCode = inputData[pos + 1];
 					// Currently only timestamp is specified as extension type
@@ -432,7 +432,7 @@ namespace
 			{
 				extTypeInfo.Size = ReadExtSize(metaInfo.ExtSize, inputData, pos + 1);
 				extTypeInfo.DataOffset = 1 + metaInfo.DataSize + metaInfo.ExtSize;
-				if (pos + extTypeInfo.DataOffset < inputData.size())
+				if (pos + extTypeInfo.DataOffset <= inputData.size())
 				{
 					extTypeInfo.ExtTypeCode = inputData[pos + metaInfo.ExtSize + metaInfo.DataSize];
 					// Currently only timestamp is specified as extension type
